@@ -16,7 +16,7 @@ PROP = 'C13'
 LEVEL = 'exploration'
 SHARDS = {'thorough': 16}
 
-NAMES = ['org.verif.N1', 'org.verif.N2']
+NAMES = ['org.verif.media-player_1', 'org.verif.N2']      # (a hyphen is legal in a bus name, not in an interface name)
 NO_OWNER = 'org.freedesktop.DBus.Error.NameHasNoOwner'
 
 
